@@ -110,6 +110,26 @@ def promotionWrong (bnd : Comp → Option (Q × Q)) (marks : List String) (inclu
           (g'.anchors.drop g.anchors.length).all (fun a => b.anchors.any (fun ba => nameMatches a.name ba.name))
         | _, _ => false)))).map (·.1)
 
+/-- numbering discipline of propagated anchors: an added anchor either bears exactly the name of an anchor of one of the
+    glyph's component bases, or it is a NUMBERED ligature anchor `ba_N` — and then at least two components' bases carry an
+    anchor called `ba` and `1 ≤ N ≤` the number of such components (one entry per carrying COMPONENT, not per matching
+    anchor: a base with two anchors of one name still counts once).  Together with `propagateMissing` this forces a
+    composite with a single carrier of `top` to receive `top` itself. -/
+def carriers (bases : List Glyph) (name : String) : Nat :=
+  bases.countP (fun b => b.anchors.any (fun x => x.name == name))
+
+def numberingWrong (before after : GlyphSet) : List String :=
+  (after.filter (fun (n, g') =>
+    match before.get? n with
+    | none => false
+    | some g =>
+      let bases := g'.comps.filterMap (fun k => after.get? k.base)
+      !((g'.anchors.drop g.anchors.length).all (fun a =>
+          bases.any (fun b => b.anchors.any (fun ba =>
+            a.name == ba.name ||
+            (decide (2 ≤ carriers bases ba.name) &&
+             (List.range (carriers bases ba.name)).any (fun i => a.name == s!"{ba.name}_{i + 1}")))))))).map (·.1)
+
 def holdsPropagate (marks : List String) (included : String → Bool) (before after : GlyphSet)
     (secondModified : List String) (secondSame : Bool) : Bool :=
   (propagateWrong before after).isEmpty && (propagateMissing marks included before after).isEmpty &&
@@ -120,5 +140,11 @@ def holdsPropagateP (bnd : Comp → Option (Q × Q)) (marks : List String) (incl
     (before after : GlyphSet) (secondModified : List String) (secondSame : Bool) : Bool :=
   holdsPropagate marks included before after secondModified secondSame &&
   (promotionWrong bnd marks included before after).isEmpty
+
+/-- everything, the numbering discipline included -/
+def holdsPropagateN (bnd : Comp → Option (Q × Q)) (marks : List String) (included : String → Bool)
+    (before after : GlyphSet) (secondModified : List String) (secondSame : Bool) : Bool :=
+  holdsPropagateP bnd marks included before after secondModified secondSame &&
+  (numberingWrong before after).isEmpty
 
 end Ufo2ft.C15
